@@ -12,11 +12,12 @@ if sys.argv[1] == "--again":
     d0 = "/verif/seeded/" + sid
     m0 = json.load(open(d0 + "/meta.json"))
     prop, needs, reldir, runre = m0["property"], m0["needs_to_manifest"], m0["demo_dir"], m0["demo_run"]
-    os.makedirs("/tmp/seed_again", exist_ok=True)
-    patch = "/tmp/seed_again/%s.patch" % sid
+    # a private scratch directory per change: several changes may be re-run in parallel
+    os.makedirs("/tmp/seed_again/" + sid, exist_ok=True)
+    patch = "/tmp/seed_again/%s/change.patch" % sid
     shutil.copy(d0 + "/patch.diff", patch)
     txt = [f for f in os.listdir(d0) if f.endswith("_test.go.txt")][0]
-    demo = "/tmp/seed_again/" + txt[:-4]
+    demo = "/tmp/seed_again/%s/%s" % (sid, txt[:-4])
     shutil.copy(d0 + "/" + txt, demo)
 else:
     sid, prop, patch, demo, reldir, runre, needs = sys.argv[1:8]
